@@ -146,6 +146,14 @@ theorem decoratePublisher_eq_compose (decs : List (α → α)) (pub : α) :
   unfold decoratePublisher
   rw [loopDown_eq_foldr decs decs.length (Nat.le_refl _), List.take_length]
 
+/-- **no publisher ⇒ not decorated**: a handler registered with a nil publisher keeps it, whatever decorators the router has;
+    one with a publisher gets the composition above -/
+theorem decorateHandlerPublisher_nil (decs : List (α → α)) :
+    decorateHandlerPublisher decs (none : Option α) = none ∧
+    ∀ pub : α, decorateHandlerPublisher decs (some pub) = some (decs.foldr (fun f a => f a) pub) := by
+  refine ⟨rfl, fun pub => ?_⟩
+  simp [decorateHandlerPublisher, decoratePublisher_eq_compose]
+
 /-- subscriber decorators, arbitrary functions: the result is `dₙ (… (d₀ (ctx sub)))` – the context decorator is
     next to the original subscriber, then the decorator added first, …: incoming messages meet them in that order -/
 theorem decorateSubscriber_eq_compose (c : α → α) (decs : List (α → α)) (sub : α) :
@@ -174,7 +182,27 @@ theorem sub_decorators_in_order (sd : List Nat) : subTrace sd = sd.map (fun i =>
   rw [sub_decorators_in_order_from]
   simp [appSub]
 
+/-- **every publisher decorator acts on every outgoing message**: a `Publish` call with `n` messages (any objects, any
+    UUIDs – equal, empty) shows each decorator, in the order added, all `n` of them, then the publisher gets all `n` -/
+theorem pub_decorators_in_order_n (n : Nat) (pd : List Nat) :
+    pubTraceN n pd = pd.flatMap (fun i => List.replicate n (Ev.pub i)) ++ List.replicate n Ev.published := by
+  unfold pubTraceN
+  rw [decoratePublisher_eq_compose, List.foldr_map]
+  induction pd with
+  | nil => rfl
+  | cons i rest ih =>
+    simp only [List.foldr_cons, List.flatMap_cons, List.append_assoc]
+    rw [ih]
+    simp [recPubN]
+
+theorem pubTraceN_one (pd : List Nat) : pubTraceN 1 pd = pubTrace pd := by
+  rw [pub_decorators_in_order_n, pub_decorators_in_order]
+  induction pd with
+  | nil => rfl
+  | cons i rest ih => simp_all
+
 example : pubTrace [7, 3, 9] = [.pub 7, .pub 3, .pub 9, .published] := by decide
+example : pubTraceN 2 [7, 3] = [.pub 7, .pub 7, .pub 3, .pub 3, .published, .published] := by decide
 example : subTrace [7, 3, 9] = [.sub 7 true, .sub 3 true, .sub 9 true] := by decide
 example : subTraceFrom (some 4) [7, 3] = [.app 4, .sub 7 true, .sub 3 true] := by decide
 
@@ -182,16 +210,16 @@ example : subTraceFrom (some 4) [7, 3] = [.app 4, .sub 7 true, .sub 3 true] := b
     (the application's own subscriber transform, if any,) subscriber decorators in order, `enter` of the applicable
     registrations in order, handler, `leave` reversed, publisher decorators in order and the publisher (if the handler
     has one and returned a message). -/
-def specTrace (regs : List Reg) (pd sd : List Nat) (name : String) (hasPub : Bool) (app : Option Nat := none) : List Ev :=
+def specTrace (regs : List Reg) (pd sd : List Nat) (name : String) (outs : Nat) (app : Option Nat := none) : List Ev :=
   (appSub app).1 ++ sd.map (fun i => Ev.sub i true) ++
   ((chainFor regs name).map Ev.enter ++ [Ev.handler] ++ (chainFor regs name).reverse.map Ev.leave) ++
-  (if hasPub then pd.map Ev.pub ++ [Ev.published] else [])
+  (pd.flatMap (fun i => List.replicate outs (Ev.pub i)) ++ List.replicate outs Ev.published)
 
 /-- the model's whole per-message trace is the specification -/
-theorem msg_trace_spec (regs : List Reg) (pd sd : List Nat) (name : String) (hasPub : Bool) (app : Option Nat) :
-    msgTrace regs pd sd name hasPub app = specTrace regs pd sd name hasPub app := by
+theorem msg_trace_spec (regs : List Reg) (pd sd : List Nat) (name : String) (outs : Nat) (app : Option Nat) :
+    msgTrace regs pd sd name outs app = specTrace regs pd sd name outs app := by
   unfold msgTrace specTrace
-  rw [sub_decorators_in_order_from, chain_trace, pub_decorators_in_order]
+  rw [sub_decorators_in_order_from, chain_trace, pub_decorators_in_order_n]
 
 /-! ### concurrent registration: whatever order the lock serialises overlapping `Handler.AddMiddleware` calls in -/
 
@@ -230,6 +258,7 @@ def progR3 : Bool → List (List POp) → List Op → R3
   | ran, pl, .addHandler _ _ _ :: r => progR3 ran pl r
   | ran, pl, .plugin ps :: r => progR3 ran (pl ++ [ps]) r
   | ran, pl, .callerEdits :: r => progR3 ran pl r
+  | ran, pl, .stopAgain :: r => progR3 ran pl r
   | ran, pl, .stopHandler _ :: r => progR3 ran pl r
   | false, pl, .run :: r => (pluginR3 pl).app (progR3 true pl r)
   | true, pl, .run :: r => progR3 true pl r
@@ -269,6 +298,7 @@ theorem exec_regs (s s' : St) (p : List Op) (h : exec s p = some s') :
         · cases hs; simp [progR3, St.r3]
       case plugin ps => cases hs; simp [progR3, St.r3]
       case callerEdits => cases hs; simp [progR3]
+      case stopAgain => cases hs; simp [progR3]
       case stopHandler g =>
         split at hs
         · cases hs; simp [progR3, St.r3]
@@ -299,6 +329,7 @@ theorem step_keeps_started (s s' : St) (o : Op) (h : step s o = some s') (x : HS
     · cases h; exact List.mem_append_left _ hx
   case plugin ps => cases h; exact hx
   case callerEdits => cases h; exact hx
+  case stopAgain => cases h; exact hx
   case stopHandler g =>
     split at h
     · cases h
@@ -328,6 +359,7 @@ theorem step_obs (s s' : St) (o : Op) (h : step s o = some s') :
     · cases h; simp
   case plugin ps => cases h; simp
   case callerEdits => cases h; simp
+  case stopAgain => cases h; simp
   case stopHandler g =>
     split at h
     · cases h; simp
@@ -397,15 +429,15 @@ theorem program_chain_trace (pre post : List Op) (s1 s : St) (x : HSt)
     (h1 : exec {} pre = some s1) (hx : x ∈ s1.hs) (hns : x.trace = none)
     (h2 : exec s1 (.run :: post) = some s) (hno : ∀ o ∈ post, o ≠ .stopHandler x.name) :
     let r := (progR3 false [] pre).app (if s1.ran then {} else pluginR3 s1.plugins)
-    let t := specTrace r.regs r.pd r.sd x.name x.hasPub x.app
-    (⟨x.name, x.hasPub, x.app, some t⟩ : HSt) ∈ s.hs ∧ ∀ b ∈ s.obs.drop s1.obs.length, (x.name, t) ∈ b := by
+    let t := specTrace r.regs r.pd r.sd x.name x.outs x.app
+    (⟨x.name, x.outs, x.app, some t⟩ : HSt) ∈ s.hs ∧ ∀ b ∈ s.obs.drop s1.obs.length, (x.name, t) ∈ b := by
   intro r t
   have hr := exec_regs {} s1 pre h1
   have hl := loadPlugins_r3 s1
   have hr3 : (loadPlugins s1).r3 = r := by
     rw [hl.1, hr]; simp [r, St.r3, R3.nil_app]
   simp only [exec, step] at h2
-  have hmem : (⟨x.name, x.hasPub, x.app, some t⟩ : HSt) ∈ (loadPlugins s1).hs.map (startH (loadPlugins s1)) := by
+  have hmem : (⟨x.name, x.outs, x.app, some t⟩ : HSt) ∈ (loadPlugins s1).hs.map (startH (loadPlugins s1)) := by
     refine List.mem_map.mpr ⟨x, by rw [hl.2.2.2.1]; exact hx, ?_⟩
     simp only [startH, hns]
     rw [msg_trace_spec]
@@ -448,7 +480,7 @@ theorem caller_edits_invisible (s : St) (p : List Op) :
       | none => rfl
       | some s2 => exact ih s2
 
-example : (exec {} [.pubDec [1, 2], .callerEdits, .addHandler "a" true none, .subDec [3], .callerEdits, .run]).map (·.obs) =
+example : (exec {} [.pubDec [1, 2], .callerEdits, .addHandler "a" 1 none, .subDec [3], .callerEdits, .run]).map (·.obs) =
     some [[("a", [.sub 3 true, .handler, .pub 1, .pub 2, .published])]] := by decide
 
 /-- **plugins act on every handler added before Run**: when `Run` happens (no earlier `run` in the program), whatever
@@ -461,16 +493,16 @@ theorem plugins_loaded_before_handlers_start (pre : List Op) (s1 : St) (h1 : exe
 
 /-- non-vacuity: router-level and handler-level registrations before `run`, a second handler added after it with
     registrations of its own, then `RunHandlers`; the first handler keeps its snapshot -/
-example : (exec {} [.routerMw [1], .addHandler "a" true none, .handlerMw "a" [2], .pubDec [7], .run,
-                    .routerMw [3], .addHandler "b" false none, .handlerMw "b" [4], .handlerMw "a" [5], .subDec [8], .run]).map (·.obs) =
+example : (exec {} [.routerMw [1], .addHandler "a" 1 none, .handlerMw "a" [2], .pubDec [7], .run,
+                    .routerMw [3], .addHandler "b" 0 none, .handlerMw "b" [4], .handlerMw "a" [5], .subDec [8], .run]).map (·.obs) =
     some [[("a", [.enter 1, .enter 2, .handler, .leave 2, .leave 1, .pub 7, .published])],
           [("a", [.enter 1, .enter 2, .handler, .leave 2, .leave 1, .pub 7, .published]),
            ("b", [.sub 8 true, .enter 1, .enter 3, .enter 4, .handler, .leave 4, .leave 3, .leave 1])]] := by decide
 
 /-- non-vacuity: a plugin registering a middleware, a publisher and a subscriber decorator; two handlers sharing the
     application-decorated subscriber 4, both added before `Run`; a plugin added after `Run` never acts -/
-example : (exec {} [.plugin [.routerMw [9], .pubDec [7], .subDec [8]], .addHandler "a" true (some 4), .routerMw [1],
-                    .addHandler "b" false (some 4), .run, .plugin [.routerMw [5]], .addHandler "c" false none, .run]).map (·.obs) =
+example : (exec {} [.plugin [.routerMw [9], .pubDec [7], .subDec [8]], .addHandler "a" 1 (some 4), .routerMw [1],
+                    .addHandler "b" 0 (some 4), .run, .plugin [.routerMw [5]], .addHandler "c" 0 none, .run]).map (·.obs) =
     some [[("a", [.app 4, .sub 8 true, .enter 1, .enter 9, .handler, .leave 9, .leave 1, .pub 7, .published]),
            ("b", [.app 4, .sub 8 true, .enter 1, .enter 9, .handler, .leave 9, .leave 1])],
           [("a", [.app 4, .sub 8 true, .enter 1, .enter 9, .handler, .leave 9, .leave 1, .pub 7, .published]),
@@ -479,8 +511,8 @@ example : (exec {} [.plugin [.routerMw [9], .pubDec [7], .subDec [8]], .addHandl
 
 /-- non-vacuity: handlers a and b with middlewares of their own are running, a is stopped, c is added afterwards with
     its own middleware: b keeps its chain, c runs router-level + its own – none of b's, none of a's -/
-example : (exec {} [.routerMw [1], .addHandler "a" true none, .handlerMw "a" [2], .addHandler "b" false none, .handlerMw "b" [3],
-                    .run, .stopHandler "a", .addHandler "c" false none, .handlerMw "c" [4], .run]).map (·.obs) =
+example : (exec {} [.routerMw [1], .addHandler "a" 1 none, .handlerMw "a" [2], .addHandler "b" 0 none, .handlerMw "b" [3],
+                    .run, .stopHandler "a", .addHandler "c" 0 none, .handlerMw "c" [4], .run]).map (·.obs) =
     some [[("a", [.enter 1, .enter 2, .handler, .leave 2, .leave 1, .published]),
            ("b", [.enter 1, .enter 3, .handler, .leave 3, .leave 1])],
           [("b", [.enter 1, .enter 3, .handler, .leave 3, .leave 1]),
